@@ -255,6 +255,23 @@ def _doc_job(job):
             if r != base[op2[0]]:
                 acc.violation(Viol('history', 'result-differs-from-a-fresh-import', dict(case0, history=[op1[0], op2[0]], op=op2[0]), base[op2[0]][1][:200], r[1][:200]))
         acc.count('traces')
+    # all ordered TRIPLES over a reduced operation set (one operation per kind), each on a fresh import
+    if tier != 'quick' or name.startswith(('full', 'two-kern-split')):
+        kinds = ['dumps:default', 'dumps:eKern', 'dumps:agnosticKern', 'dumps:exclude-decoration', 'dumps:types-kern', 'dumps:ids-0', f'dumps:range-1-{M}', 'dumps:bad-reversed',
+                 'tokens', 'unique:CORE', 'freq', 'meta:COM-clear', 'spine_types:kern', 'iter:first-only', 'graph:stdout', 'export:options-default']
+        R = [o for o in ops if o[0] in kinds]
+        fresh_doc, _ = kp.loads(text)
+        for o1 in R:
+            for o2 in R:
+                for o3 in R:
+                    call(o1, fresh_doc)
+                    call(o2, fresh_doc)
+                    r, _ = call(o3, fresh_doc)
+                    acc.count('transitions', 3)
+                    acc.count('evaluations')
+                    if r != base[o3[0]]:
+                        acc.violation(Viol('history', 'result-differs-from-a-fresh-import', dict(case0, history=[o1[0], o2[0], o3[0]], op=o3[0]), base[o3[0]][1][:200], r[1][:200]))
+        acc.count('triples', len(R) ** 3)
     s_end = SN.digest([doc])
     m_end = SN.digest(SN.module_roots())
     if m_end != mod0:
